@@ -85,11 +85,11 @@ class _Api:
 
     def call(request, *a, **k):
       if self.recording:
-        self.calls.append([name, request.client_id if name == 'SuggestTrials' else None])
         if name == 'GetOperation':
+          if self.getops >= POLL_BOUND:
+            raise _PollBound()          # the (POLL_BOUND+1)-th poll of one call is not made: the loop is declared endless
           self.getops += 1
-          if self.getops > POLL_BOUND:
-            raise _PollBound()
+        self.calls.append([name, request.client_id if name == 'SuggestTrials' else None])
       return fn(request, *a, **k)
     return call
 
@@ -608,7 +608,7 @@ def stage(c, prop, backends=('ram', 'sqlmem')):
     raise core.InfraError('clientcheck.stage: no predicates for ' + prop)
   t0 = time.time()
   budget = 20.0 if c.tier == 'quick' else 150.0
-  n_max = 60 if c.tier == 'quick' else 1200
+  n_max = 50 if c.tier == "quick" else 1200
   lengths = (5, 15) if c.tier == 'quick' else (5, 28)
   backends = list(backends)
   cfgs = _flags(c, backends)
